@@ -64,6 +64,9 @@ CLAIMED = {
  'C17': dict(cat='proof', tech='per-cell branch resolution of the kernels extracted from MIR (exact rational evaluation at a generic point) + rational-function identities (sympy) + linear inequalities at simplex vertices; exact folding',
    text='Partial claim (formula level): on each of the 6 strict orderings of (r,g,b) x {L<1/2, L>1/2} the branch structure of both kernels is constant; the rational functions the code computes there are shown identical to the hexcone definition (H, S, L), the composition hsl_to_lrgb(lrgb_to_hsl(p)) identical to p, and H in [0,360) by linear inequalities at the simplex vertices; L=0 -> black and L=1 -> white for every finite hue/saturation by exact folding.',
    ref='3/C17', note='NOT decided: the rounding tolerances (1e-6, 1e-4, 0.01 deg, 1e-5), S <= 1 under rounding, the epsilon-slivers around ties/black/white. ' + TB),
+ 'C09': dict(cat='proof', tech='kernel-expression identity between the long conversions and compositions of the short public conversions (MIR abstract interpretation, helpers as function summaries); imported stage identities; data-flow identity of dimensions and config',
+   text='Partial claim (structure): Yuv->Xyb and Xyb->Yuv are shown to be exactly the mirrored compositions of the short public conversions with the configuration\'s own matrix, transfer and primaries (identity of the extracted per-pixel kernel expressions), width/height/config are data-flow copies, and in-gamut colours of every physical primaries set are shown never to hit the clamp in front of the cube root; with the separately decided stage identities C08, C10, C06, C05 and the block structure of C11 this is the round trip at formula level.',
+   ref='3/C09', note='NOT decided: the numeric budget max(1, 0.015*(2^n-1)) codes (approximation accuracy of powf/cbrtf amplified through the curves). ' + TB),
 }
 NA_REASON = {}
 
